@@ -91,13 +91,9 @@ func read_atom(rdr *tokenReader) (MalType, error) {
 		return int(i), nil
 	case scanner.String:
 		str := (*token)[1 : len(*token)-1]
-		return strings.Replace(
-			strings.Replace(
-				strings.Replace(
-					strings.Replace(str, `\\`, "\u029e", -1),
-					`\"`, `"`, -1),
-				`\n`, "\n", -1),
-			"\u029e", "\\", -1), nil
+		// one left-to-right pass: a placeholder character for the escaped backslash would
+		// turn every literal occurrence of that character in the string into a backslash
+		return strings.NewReplacer(`\\`, `\`, `\"`, `"`, `\n`, "\n").Replace(str), nil
 	case scanner.RawString:
 		if *token == "¬" {
 			return nil, lisperror.NewLispError(errors.New("expected '¬', got EOF"), tokenStruct.GetPosition())
